@@ -245,7 +245,15 @@ func m3Execute(sc *m3Scenario, choose sched.Chooser) (ev []M, steps []sched.Step
 		if kind == "bucket" {
 			k = "counter"
 		}
-		r.log(M{"e": "call", "t": t, "op": "report", "name": name, "kind": k, "v": vs, "tags": tmPairs(tags), "bucket": kind == "bucket"})
+		want := tags
+		if kind == "bucket" {
+			// ValueBuckets{1, 2}.ValueBucket(1, 2) is the second of three buckets: the bucket tags the reporter appends
+			want = map[string]string{"bucketid": "0001", "bucket": "1.000000-2.000000"}
+			for k2, v2 := range tags {
+				want[k2] = v2
+			}
+		}
+		r.log(M{"e": "call", "t": t, "op": "report", "name": name, "kind": k, "v": vs, "tags": tmPairs(want), "bucket": kind == "bucket"})
 		r.mu.Lock()
 		r.callLo[id] = time.Now().UnixNano()
 		r.mu.Unlock()
